@@ -555,6 +555,7 @@ def run(ck):
             ck.count(vlib.hash_str(data.hex()), nontrivial=nontriv)
             ck.sample({"file": os.path.basename(path), "fmt": fmt, "orders": exp_orders[:16], "rst": d["rst"],
                        "real": c["lines"][:4]}, limit=4)
+            excluded = False
             if c["oracle"]:
                 stats["oracle_failures"] += 1
                 kind = c["oracle"][0].split()[1]
@@ -563,11 +564,14 @@ def run(ck):
                     sig = "oracle:stale-end-point:entry-skip-marker"
                 ck.violation(sig, dict(rp, oracle=c["oracle"][:6]),
                              "duration / order time / loop counter differs from what is rendered (%s): %s" % (fmt, c["oracle"][0]))
+                excluded = sig.startswith("oracle:stale-end-point")
+                if not excluded:
+                    continue
             if mo is None:
                 continue
             if any(l == "tracesagree true" for l in mo):
                 stats["model_traces_agree"] += sum(1 for l in mo if l == "tracesagree true")
-            if any(l == "tracesagree false" for l in mo):
+            if any(l == "tracesagree false" for l in mo) and not capped and not excluded:
                 ck.unproved("model: Scan.run and Play.run row traces differ", "%s (theorem C18_scan_eq_play contradicted?)" % os.path.basename(path))
             if capped:
                 continue
